@@ -218,7 +218,10 @@ def static_type(e, types):
 
 
 # ---------------------------------------------------------------------- known-finding class predicates
-# (Python mirrors of the Lean `Known…` definitions in lean/LokiModel/C32/Known.lean; all decidable on the program)
+# All decidable on the program text.  Lean side: the cp classes are the complement of the theorem domain `cpOK` (loop-free
+# bodies with type-correct recorded literals) in lean/LokiModel/C32/Model.lean, `dc-elseif-emptied` is `KnownDcElseIf`
+# (exact: the driver predicts the exception); the Python predicates below are syntactic over-approximations of the
+# failing families, used only to label oracle failures.
 
 def known_cp_loop(prog):
     """a DO or DO WHILE loop whose body assigns a scalar variable: the loop body is rewritten with the constants
@@ -391,6 +394,36 @@ def known_uv_print(prog):
     return False
 
 
+def known_assoc_nested(prog):
+    """an ASSOCIATE inside another ASSOCIATE whose selector is an expression mentioning a name bound by the enclosing
+    one: rebuilding the inner node (any non-inplace Transformer, here RemoveDeadCodeTransformer) re-derives the selector
+    shapes with the outer name still of deferred type and raises ValueError('Non-matching dimensions') — the Associate /
+    ExpressionDimensionsMapper defect recorded in notes/FIR.md (L2), not a property of dead-code removal"""
+    def walk(stmts, bound):
+        for s in stmts:
+            h = _h(s)
+            if h == 'assoc':
+                for b in s[1]:
+                    if _h(b[1]) not in ('v', 'idx', 'sec') and ex_names(b[1]) & bound:
+                        return True
+                if walk(s[2], bound | {str(b[0]) for b in s[1]}):
+                    return True
+            elif h == 'do':
+                if walk(s[5], bound):
+                    return True
+            elif h == 'while':
+                if walk(s[2], bound):
+                    return True
+            elif h == 'if':
+                if walk(s[2], bound) or walk(s[3], bound):
+                    return True
+            elif h == 'select':
+                if any(walk(c[1], bound) for c in s[2]) or walk(s[3], bound):
+                    return True
+        return False
+    return any(walk(u[4], set()) for u in prog[2:])
+
+
 def known_uv_assoc(prog):
     """an ASSOCIATE whose selector is an expression (not a variable, element or section): get_used_or_defined_symbols
     meets the expression among the used symbols and raises AttributeError (no name_parts)"""
@@ -418,6 +451,8 @@ def classify(op, flag, prog, kind=''):
         table = []
         if kind.startswith('raise validationerror'):
             table.append(('dc-elseif-emptied', lambda p: known_dc_elseif(p, flag == 'simp')))
+        if kind.startswith('raise valueerror'):
+            table.append(('associate-rebuild-inherited', known_assoc_nested))
         # symbolic_op(expr, eq, value) of visit_MultiConditional calls simplify even with use_simplify=False
         table.append(('simplify-arithmetic-inherited', lambda p: known_simplify_arith(p, 'dc')))
     elif op == 'uv':
@@ -821,24 +856,31 @@ class C32(Prop):
     def classes(self):
         return ['cp-loop-assigned-scalar', 'cp-call-not-invalidating', 'cp-associate-alias', 'cp-select-sequential',
                 'cp-literal-type-conversion', 'simplify-arithmetic-inherited', 'dc-elseif-emptied',
-                'uv-do-variable-removed', 'uv-print-only-variable', 'uv-associate-expression-selector']
+                'uv-do-variable-removed', 'uv-print-only-variable', 'uv-associate-expression-selector',
+                'associate-rebuild-inherited']
 
     # ------------------------------------------------------------ generation
     def gen(self, rng, tier):
         n = {'quick': dict(cpk=36, dcl=10, dcs=16, cpw=8, dcw=6, uv=8),
-             'thorough': dict(cpk=400, dcl=80, dcs=150, cpw=80, dcw=60, uv=60),
+             'thorough': dict(cpk=300, dcl=60, dcs=110, cpw=60, dcw=45, uv=45),
              'search': dict(cpk=200, dcl=50, dcs=80, cpw=50, dcw=30, uv=40)}.get(tier, None) or \
             dict(cpk=36, dcl=10, dcs=16, cpw=8, dcw=6, uv=8)
-        g = (lambda k: 'g' if (tier == 'thorough' and k % 8 == 0) else '')
+        g = (lambda k: 'g' if (tier == 'thorough' and k % 10 == 0) else '')
         for k in range(n['cpk']):
             p = gen_cp_program(rng, loops=(k % 3 != 0), extras=(k % 3 == 2))
             ins = fir.gen_inputs(rng, p, 2, max_extent=5)
             yield Case(mkreq('cp', 'plain', 'k' + g(k), p, ins), stream='cp-k' + ('' if k % 3 else '-loopfree'))
+        def dc_prog(mode):
+            for _ in range(20):
+                p = rewrite_conditions(rng, fir.gen_program(rng, DC_CFG), mode)
+                if not known_assoc_nested(p):      # the K streams stay out of the inherited ASSOCIATE-rebuild class
+                    return p
+            return p
         for k in range(n['dcl']):
-            p = rewrite_conditions(rng, fir.gen_program(rng, DC_CFG), 'lit')
+            p = dc_prog('lit')
             yield Case(mkreq('dc', 'nosimp', 'k' + g(k), p, fir.gen_inputs(rng, p, 2)), stream='dc-k-lit')
         for k in range(n['dcs']):
-            p = rewrite_conditions(rng, fir.gen_program(rng, DC_CFG), 'class')
+            p = dc_prog('class')
             yield Case(mkreq('dc', 'simp', 'k' + g(k), p, fir.gen_inputs(rng, p, 2)), stream='dc-k-simp')
         for k in range(n['cpw']):
             p = fir.gen_program(rng, WIDE_CFG)
@@ -869,7 +911,7 @@ class C32(Prop):
     # ------------------------------------------------------------ oracle
     def oracle(self, req):
         op, flag, kmode, prog, inputs = dec_req(req)
-        gf = kmode.endswith('g')       # thorough tier: every 8th case also goes through gfortran
+        gf = kmode.endswith('g')       # thorough tier: every 10th case also goes through gfortran
         return [Failure(what, cls) for what, cls in run_oracle(op, flag, prog, inputs, gfortran=gf)]
 
     def shrink_candidates(self, req):
